@@ -57,7 +57,7 @@ def world(ctx, wrap=True):
     shim = ctx.build_ir('l3_world.cpp', 'cut', extra=ext)
     msg = ctx.build_ir(REPO + '/runtime/message.cpp', 'cut', extra=['-DFIX8_MAX_FLD_LENGTH=%d' % FLD])
     ll = ctx.link_ir([shim, msg], 'l3all')
-    opts = ['--typed-alloc']
+    opts = ['--typed-alloc', '--ptrcmp']
     for w in (M_BFENC, M_EXT, M_EXTFW): opts += ['--wrap', w]
     info = ctx.translate(ll, ROOTS, 'l3w.c', stubs={M_CTX: 'st_ctx_ctor', 'strlen': 'st_strlen'}, stubfiles=['common.stubs'], models=['cxx.c', 'stubs.c', 'l3_env.c'], opts=opts,
                          provided=['gmtime_r'])
